@@ -29,6 +29,8 @@ FUNCS = [
     ("src/concat_source.rs", "stream_chunks"),
     ("src/with_indices.rs", "substring"),
     ("src/encoder.rs", "encode"),
+    ("src/original_source.rs", "stream_chunks"),
+    ("src/helpers.rs", "next"),
 ]
 
 def strip_comments(text):
